@@ -315,9 +315,13 @@ class MemioEngine(object):
         """len / tell / address agree with the model (no machine traffic)."""
         w = self.w
         o = v.obj
-        if len(o) != v.end - v.start:
-            w.violate("F", "len(%s) is %d, the view covers %d bytes"
-                      % (v.name, len(o), v.end - v.start), kind="len")
+        try:
+            n = len(o)
+        except ValueError as e:
+            n = "invalid (%s)" % e
+        if n != v.end - v.start:
+            w.violate("F", "len(%s) is %s, the view covers %d bytes"
+                      % (v.name, n, v.end - v.start), kind="len")
         if self.dead(v):
             return
         if o.tell() != v.pos:
